@@ -1,9 +1,61 @@
-/- driver handler of the `ts` stream (line protocol, see Main.lean) -/
+/- driver handler of the `ts` stream (line protocol, see Main.lean)
+
+  ts  parse  "<text>"      → ok <record+instant> | reject
+  ts  print  <record>      → ok "<text>"         | unsupported   (record not `Ts.ok`)
+-/
 import AslModel.Drv.Util
+import AslModel.Timestamp
 namespace Asl.Drv.Ts
-open Asl
+open Asl Asl.Drv
+
+def k (s : String) : Str := s.toList
+
+def showTs (t : Ts) : Json :=
+  .obj [(k "y", .num t.year), (k "mo", .num t.month), (k "d", .num t.day), (k "h", .num t.hour),
+        (k "mi", .num t.minute), (k "s", .num t.second), (k "us", .num (fracMicros t.frac)),
+        (k "frac", .arr (t.frac.map fun (d : Nat) => Json.num (d : Int))),
+        (k "off", .num t.off), (k "z", .bool t.zulu), (k "instant", .num t.instant)]
+
+def natOf : Option Json → Option Nat
+  | some (.num n) => if 0 ≤ n then some n.toNat else none
+  | _ => none
+
+def digitsOf : List Json → Option (List Nat)
+  | [] => some []
+  | .num n :: rest => if 0 ≤ n then (digitsOf rest).map (n.toNat :: ·) else none
+  | _ :: _ => none
+
+def readTs (j : Json) : Option Ts := do
+  let y ← natOf (j.get "y")
+  let mo ← natOf (j.get "mo")
+  let d ← natOf (j.get "d")
+  let h ← natOf (j.get "h")
+  let mi ← natOf (j.get "mi")
+  let s ← natOf (j.get "s")
+  let fr ← match j.get "frac" with
+    | some (.arr xs) => digitsOf xs
+    | _ => none
+  let off ← match j.get "off" with
+    | some (.num n) => some n
+    | _ => none
+  let z ← match j.get "z" with
+    | some (.bool b) => some b
+    | _ => none
+  some { year := y, month := mo, day := d, hour := h, minute := mi, second := s, frac := fr,
+         off := off, zulu := z }
 
 def handle : List String → String
+  | ["parse", text] =>
+    match rd text with
+    | some (.str s) =>
+      match parseTs s with
+      | some t => "ok\t" ++ js (showTs t)
+      | none => "reject"
+    | _ => "unsupported"
+  | ["print", rec] =>
+    match (rd rec).bind readTs with
+    | some t => if t.ok then "ok\t" ++ js (.str (printTs t)) else "unsupported"
+    | none => "unsupported"
   | _ => "bad-op"
 
 end Asl.Drv.Ts
